@@ -111,14 +111,28 @@ static void case_buffers(vf_rng *r)
 		case 0: /* new buffer */
 			if (nobj >= 60) break;
 			vf_at("mpt_array_clone"); mpt_array_clone(&h[a], 0);
-			vf_at("mpt_array_append"); vf_count("buffer:create", 1);
-			if (!mpt_array_append(&h[a], 1 + vf_below(r, 200), 0)) vf_fail("buffer:create-failed", "%s", ctx);
+			if (vf_chance(r, 1, 3)) {
+				/* character-typed buffer: sharing it with a raw array is refused (content types differ) */
+				vf_at("mpt_array_set"); vf_count("buffer:create-typed", 1);
+				if (!mpt_array_set(&h[a], mpt_type_traits('c'), 1 + vf_below(r, 200), 0, 0)) vf_fail("buffer:create-failed", "%s", ctx);
+			} else {
+				vf_at("mpt_array_append"); vf_count("buffer:create", 1);
+				if (!mpt_array_append(&h[a], 1 + vf_below(r, 200), 0)) vf_fail("buffer:create-failed", "%s", ctx);
+			}
 			objs[nobj] = h[a]._buf; cnt[nobj] = 1; nobj++;
 			break;
 		case 1: /* share */
 			vf_at("mpt_array_clone"); vf_count("buffer:share", 1);
-			VF_CHECK(mpt_array_clone(&h[a], &h[b]) >= 0, "buffer:clone-refused", "%s", ctx);
-			if (h[b]._buf && a != b && before != h[b]._buf) for (int k = 0; k < nobj; k++) if (objs[k] == h[b]._buf) cnt[k]++;
+			{
+				int mixed = h[a]._buf && h[b]._buf && h[a]._buf->_content_traits != h[b]._buf->_content_traits;
+				int ret = mpt_array_clone(&h[a], &h[b]);
+				if (ret < 0) {
+					/* only differing content types may be refused; a refusal creates no handle (checked through the counters below) */
+					VF_CHECK(mixed, "buffer:clone-refused", "%s: returned %d", ctx, ret);
+					VF_CHECK(h[a]._buf == before, "buffer:refused-clone-changed-target", "%s", ctx);
+					vf_count("buffer:share-refused-type", 1);
+				}
+			}
 			break;
 		case 2: /* drop */
 			vf_at("mpt_array_clone"); vf_count("buffer:drop", 1);
@@ -127,7 +141,10 @@ static void case_buffers(vf_rng *r)
 		case 3: /* write through handle: detaches when shared */
 			if (!h[a]._buf || nobj >= 60) break;
 			vf_at("mpt_array_append"); vf_count("buffer:write", 1);
-			if (!mpt_array_append(&h[a], 1 + vf_below(r, 100), 0)) vf_fail("buffer:append-failed", "%s", ctx);
+			if (h[a]._buf->_content_traits) {
+				if (!mpt_array_set(&h[a], h[a]._buf->_content_traits, 1 + vf_below(r, 100), 0, (long) h[a]._buf->_used)) vf_fail("buffer:append-failed", "%s", ctx);
+			}
+			else if (!mpt_array_append(&h[a], 1 + vf_below(r, 100), 0)) vf_fail("buffer:append-failed", "%s", ctx);
 			if (h[a]._buf != before) {
 				int known = 0;
 				for (int k = 0; k < nobj; k++) if (objs[k] == h[a]._buf) known = 1;
@@ -208,10 +225,11 @@ static void case_buffers(vf_rng *r)
 }
 
 /* ---- leg C: metatype kinds --------------------------------------------------- */
-static int sent_count;
+static int sent_count, send_fail;
 static int send_cb(void *ptr, const MPT_STRUCT(reply_data) *rd, const MPT_STRUCT(message) *msg)
 {
 	(void) ptr; (void) rd; (void) msg;
+	if (send_fail) return MPT_ERROR(BadOperation);
 	sent_count++;
 	return 0;
 }
@@ -244,7 +262,7 @@ static MPT_INTERFACE(metatype) *k_create(int kind, vf_rng *r)
 		mpt_array_clone(&a, 0);
 		return mt;
 	case KIterString: vf_at("mpt_iterator_string"); return mpt_iterator_string("1 2 3 four", 0);
-	case KReply: vf_at("mpt_reply_deferrable"); return mpt_reply_deferrable(vf_below(r, 12), send_cb, &sent_count);
+	case KReply: vf_at("mpt_reply_deferrable"); return mpt_reply_deferrable(2 + vf_below(r, 8), send_cb, &sent_count);
 	case KRawData: {
 		/* plot data holding stage buffers: the last unref has to release them (LeakSanitizer) */
 		const MPT_STRUCT(named_traits) *nt = mpt_rawdata_type_traits();
@@ -303,9 +321,17 @@ static void case_meta(uint64_t idx, vf_rng *r)
 	vf_count(kname[kind], 1);
 	cnt[0] = 1; nobj = 1;
 	if (kind == KStreamInput) fd0 = kfd[0];
+	MPT_INTERFACE(reply_context_detached) *defd[4];
+	int ndef = 0;
+	long mrefs = 1;     /* metatype references of object 0 (reply contexts: cnt[0] = mrefs + deferred handles) */
+	send_fail = 0;
 	for (int i = 0; i < nops; i++) {
-		int op = (int) vf_below(r, 5), k = (int) vf_below(r, (uint32_t) nobj);
+		int op = (int) vf_below(r, kind == KReply ? 7 : 5), k = (int) vf_below(r, (uint32_t) nobj);
 		MPT_INTERFACE(metatype) *mt = obj[k];
+		if (kind == KReply && k == 0 && op < 5) {
+			/* handle operations need a metatype reference; deferred handles alone keep the object alive */
+			if ((op == 2 && mrefs <= 0) || (op != 2 && mrefs <= 0)) op = 6;
+		}
 		if (cnt[k] <= 0) continue;
 		snprintf(ctx, sizeof(ctx), "%s op=%d obj=%d handles=%ld", kname[kind], op, k, cnt[k]);
 		vf_log("%s", ctx);
@@ -314,19 +340,47 @@ static void case_meta(uint64_t idx, vf_rng *r)
 		case 0: case 1: { /* addref */
 			vf_at("metatype::addref"); vf_count("meta:addref", 1);
 			uintptr_t c = mt->_vptr->addref(mt);
-			if (c) { cnt[k]++; raised++; VF_CHECK(c == (uintptr_t) cnt[k], "meta:addref-value", "%s: addref returned %lu, model now %ld", ctx, (unsigned long) c, cnt[k]); }
+			if (c) { cnt[k]++; raised++; if (!k) mrefs++; VF_CHECK(c == (uintptr_t) cnt[k], "meta:addref-value", "%s: addref returned %lu, model now %ld", ctx, (unsigned long) c, cnt[k]); }
 			else vf_count("meta:addref-unsupported", 1);
 			break; }
 		case 2: { /* unref */
 			vf_at("metatype::unref"); vf_count("meta:unref", 1);
 			mt->_vptr->unref(mt);
 			cnt[k]--;
+			if (!k) mrefs--;
 			break; }
 		case 3: { /* clone */
 			if (nobj >= 16) break;
 			vf_at("metatype::clone"); vf_count("meta:clone", 1);
 			MPT_INTERFACE(metatype) *c = mt->_vptr->clone(mt);
 			if (c) { VF_CHECK(c != mt, "meta:clone-same-object", "%s: clone returned the object itself", ctx); obj[nobj] = c; cnt[nobj] = 1; nobj++; vf_count("meta:clone-created", 1); }
+			break; }
+		case 5: { /* reply context: arm a request and defer it (the handle shares the context's counter) */
+			MPT_INTERFACE(reply_context) *rc = 0;
+			MPT_STRUCT(reply_data) *rd = 0;
+			uint8_t idb[2] = { 0x01, (uint8_t) (i + 1) };
+			if (k || mrefs <= 0 || ndef >= 4) break;
+			if (mt->_vptr->convertable.convert((MPT_INTERFACE(convertable) *) mt, MPT_ENUM(TypeReplyPtr), &rc) < 0 || !rc) break;
+			if (mt->_vptr->convertable.convert((MPT_INTERFACE(convertable) *) mt, MPT_ENUM(TypeReplyDataPtr), &rd) < 0 || !rd) break;
+			vf_at("mpt_reply_set");
+			if (mpt_reply_set(rd, sizeof(idb), idb) < 0) break;
+			vf_at("reply_context::defer"); vf_count("meta:reply-defer", 1);
+			MPT_INTERFACE(reply_context_detached) *d = rc->_vptr->defer(rc);
+			if (!d) break;
+			defd[ndef++] = d;
+			cnt[0]++;
+			break; }
+		case 6: { /* resolve a deferred handle: explicit reply (transport may refuse it) or release (NULL message) */
+			static const MPT_STRUCT(message) text = { 2, "ok", 0, 0 };
+			if (!ndef) break;
+			int w = (int) vf_below(r, (uint32_t) ndef), how = (int) vf_below(r, 3);
+			send_fail = (how == 1);
+			vf_at("reply_context_detached::reply"); vf_count(how == 1 ? "meta:reply-deferred-refused-send" : "meta:reply-deferred-resolve", 1);
+			int ret = defd[w]->_vptr->reply(defd[w], how == 2 ? 0 : &text);
+			send_fail = 0;
+			if (ret < 0) break;   /* refused by the transport: the handle stays valid and keeps its reference */
+			defd[w] = defd[--ndef];
+			cnt[0]--;
 			break; }
 		case 4: { /* counter at maximum (only for counted kinds) */
 			last_ref = 0;
@@ -361,8 +415,11 @@ static void case_meta(uint64_t idx, vf_rng *r)
 		if (fd0 >= 0 && cnt[0] > 0) VF_CHECK(fcntl(fd0, F_GETFD) >= 0, "meta:descriptor-closed-early", "%s: stream descriptor closed while referenced", ctx);
 		vf_count("monitor:meta-lifetime-checks", 1);
 	}
+	while (ndef > 0) { ndef--; defd[ndef]->_vptr->reply(defd[ndef], 0); cnt[0]--; }
 	for (int q = 0; q < nobj; q++) {
-		while (cnt[q] > 0) { obj[q]->_vptr->unref(obj[q]); cnt[q]--; }
+		long n = q ? cnt[q] : mrefs;
+		while (n > 0) { obj[q]->_vptr->unref(obj[q]); cnt[q]--; n--; }
+		VF_CHECK(cnt[q] <= 0, "meta:model-count", "%s object %d: model keeps %ld references at teardown", kname[kind], q, cnt[q]);
 		VF_CHECK(is_freed(obj[q]), "meta:alive-after-last-drop", "%s object %d not freed at teardown", kname[kind], q);
 	}
 	if (kind == KStreamInput && kfd[1] >= 0) { close(kfd[1]); kfd[1] = -1; }
